@@ -48,6 +48,14 @@ def parseQ (s : String) : Option Qry :=
   | "lG", some n => some (.lGroups n)
   | "lM", some n => some (.lMembers n)
   | "E", some n => some (.load n)
+  | "A", some _ => some .qAll
+  | "P", some n => some (.qPage (n / 10) (n % 10))
+  | "Q", some n => some (.qRankPage (n / 100) (n / 10 % 10) (n % 10))
+  | "X", some n => some (.qEven n)
+  | "Z", some n => some (.qEvenRank (n / 10) (n % 10))
+  | "Y", some n => some (.qExt n)
+  | "V", some n => some (.vEven (n / 100) (n % 100))
+  | "W", some n => some (.vExt (n / 100) (n % 100))
   | _, _ => none
 
 def parseAns (s : String) : Option (List Nat) :=
@@ -71,6 +79,10 @@ def step (line : String) : String :=
     match txs.mapM parseTx with
     | some ts => s!"v{(committedTxs ts).length}"
     | none => "bad-case"
+  | "cr" :: _ :: _ :: _ :: _ :: txs =>
+    match txs.mapM parseTx with
+    | some ts => s!"v{(committedTxs ts).length}"
+    | none => "bad-case"
   | "race" :: _ => "done"
   | _ => "bad-case"
 
@@ -78,27 +90,30 @@ def firstBadRead (txs : List (Bool × List WOp)) (t : ReadTx) : String :=
   if t.tagStart != t.tagEnd then "tag-moved"
   else if (committedTxs txs).length < t.tagStart then "tag-not-a-committed-version"
   else match t.reads.find? (fun qa => evalQ qa.1 (versionOf txs t.tagStart) != qa.2) with
-    | some qa => s!"read-differs(model:{qa.1 |> fun q => (evalQ q (versionOf txs t.tagStart))})"
+    | some qa => s!"read-differs(got:{qa.2},model:{evalQ qa.1 (versionOf txs t.tagStart)},obs#{(t.reads.takeWhile (fun qb => evalQ qb.1 (versionOf txs t.tagStart) == qb.2)).length})"
     | none => "?"
+
+def judge (txs : List String) (impl : String) : String :=
+  match txs.mapM parseTx with
+  | none => "bad-case"
+  | some ts =>
+    match splitSp impl with
+    | v :: toks =>
+      if v != s!"v{(committedTxs ts).length}" then s!"fail:final-version:{v}"
+      else match toks.mapM parseReadTx with
+        | none => "unparsed"
+        | some rts =>
+          match rts.find? (fun rt => !readTxOk ts rt.2) with
+          | none => "ok"
+          | some rt => s!"fail@{rt.1}:{firstBadRead ts rt.2}"
+    | [] => "unparsed"
 
 def specStep (line : String) : String :=
   match line.splitOn "\t" with
   | [case, impl] =>
     match splitSp case with
-    | "mv" :: _ :: _ :: _ :: txs =>
-      match txs.mapM parseTx with
-      | none => "bad-case"
-      | some ts =>
-        match splitSp impl with
-        | v :: toks =>
-          if v != s!"v{(committedTxs ts).length}" then s!"fail:final-version:{v}"
-          else match toks.mapM parseReadTx with
-            | none => "unparsed"
-            | some rts =>
-              match rts.find? (fun rt => !readTxOk ts rt.2) with
-              | none => "ok"
-              | some rt => s!"fail@{rt.1}:{firstBadRead ts rt.2}"
-        | [] => "unparsed"
+    | "mv" :: _ :: _ :: _ :: txs => judge txs impl
+    | "cr" :: _ :: _ :: _ :: _ :: txs => judge txs impl
     | "race" :: _ => if impl == "done" then "ok" else "fail:" ++ impl
     | _ => "bad-case"
   | _ => "bad-case"
